@@ -102,6 +102,83 @@ pub fn run_savesys(toks: &[&str]) -> String {
     format!("res={} file={} tmp={}", res, back, b01(leftover))
 }
 
+// savetrace <old lines> <new lines>
+// the sequence of file-system calls a successful save issues on the policy file and its temporary sibling, read off an
+// strace log: C:<f> (open with O_CREAT / O_TRUNC), W:<f>:<bytes> (consecutive writes summed), R:<f>:<g> (rename),
+// U:<f> (unlink), T:<f> (truncate), with f, g in {path, tmp}.  Compared with Model/FileSave.v's `save_new`.
+pub fn run_savetrace(toks: &[&str]) -> String {
+    let rt = crate::eng::rt();
+    let dir = std::env::var("CVH_TMP").unwrap_or_else(|_| "/verif/.build/tmp".to_string());
+    let _ = std::fs::create_dir_all(&dir);
+    let path = format!("{}/trace{}.csv", dir, std::process::id());
+    let log = format!("{}.strace", path);
+    {
+        let mut m = model_with(&rt, &dec_rules(toks[1]));
+        let mut a = casbin::FileAdapter::new(path.clone());
+        rt.block_on(a.save_policy(&mut m)).unwrap();
+    }
+    let exe = std::env::current_exe().unwrap();
+    let tmp = format!("{}.tmp", path);
+    let st = std::process::Command::new("strace")
+        .args(["-f", "-qq", "-y", "-o", &log, "-P", &path, "-P", &tmp, "-e",
+               "trace=open,openat,creat,write,pwrite64,writev,rename,renameat,renameat2,unlink,unlinkat,truncate,ftruncate"])
+        .arg(exe)
+        .args(["savechild", &path, toks[2], "unlimited"])
+        .status();
+    let name = |s: &str| -> Option<&'static str> {
+        if s.contains(&format!("{}\"", tmp)) || s.contains(&format!("{}>", tmp)) { Some("tmp") }
+        else if s.contains(&format!("{}\"", path)) || s.contains(&format!("{}>", path)) { Some("path") }
+        else { None }
+    };
+    let mut ops: Vec<String> = vec![];
+    if let (Ok(_), Ok(text)) = (st, std::fs::read_to_string(&log)) {
+        for line in text.lines() {
+            let l = line.trim_start_matches(|c: char| c.is_ascii_digit() || c == ' ');
+            let call = l.split('(').next().unwrap_or("");
+            let okres = l.rsplit(" = ").next().map(|r| !r.starts_with("-1")).unwrap_or(false);
+            if !okres { continue; }
+            match call {
+                "open" | "openat" | "creat" => {
+                    if l.contains("O_CREAT") || l.contains("O_TRUNC") || call == "creat" {
+                        if let Some(f) = name(l) { ops.push(format!("C:{}", f)); }
+                    }
+                }
+                "write" | "pwrite64" | "writev" => {
+                    let n: usize = l.rsplit(" = ").next().and_then(|r| r.trim().parse().ok()).unwrap_or(0);
+                    if let Some(f) = name(l) {
+                        if let Some(last) = ops.last_mut() {
+                            if let Some(rest) = last.strip_prefix(&format!("W:{}:", f)) {
+                                let prev: usize = rest.parse().unwrap_or(0);
+                                *last = format!("W:{}:{}", f, prev + n);
+                                continue;
+                            }
+                        }
+                        ops.push(format!("W:{}:{}", f, n));
+                    }
+                }
+                "rename" | "renameat" | "renameat2" => {
+                    // source first, destination second
+                    let a = l.find(&format!("{}\"", tmp));
+                    let b = l.rfind(&format!("{}\"", path));
+                    match (a, b) {
+                        (Some(x), Some(y)) if x < y => ops.push("R:tmp:path".to_string()),
+                        _ => ops.push("R:?".to_string()),
+                    }
+                }
+                "unlink" | "unlinkat" => { if let Some(f) = name(l) { ops.push(format!("U:{}", f)); } }
+                "truncate" | "ftruncate" => { if let Some(f) = name(l) { ops.push(format!("T:{}", f)); } }
+                _ => {}
+            }
+        }
+    } else {
+        ops.push("nostrace".to_string());
+    }
+    let _ = std::fs::remove_file(&path);
+    let _ = std::fs::remove_file(&tmp);
+    let _ = std::fs::remove_file(&log);
+    if ops.is_empty() { "-".to_string() } else { ops.join("|") }
+}
+
 // savecrash <old lines> <new lines> <limit>
 pub fn run_savecrash(toks: &[&str]) -> String {
     let rt = crate::eng::rt();
